@@ -178,6 +178,9 @@ class World:
             return "ftp://" + tgt[1] + path
         if form == "mailto":
             return "mailto:someone@" + tgt[1]
+        if form in ("ws", "wss", "tcp", "unix", "HTTPX"):
+            # schemes a connector may know about but that are not HTTP: not a redirect target either
+            return {"ws": "ws", "wss": "wss", "tcp": "tcp", "unix": "unix", "HTTPX": "httpx"}[form] + "://" + tgt[1] + path
         if form == "invalid":
             return "http://[::1" + path
         if form == "nohost":
@@ -206,7 +209,9 @@ def effective_target(cur: tuple, hop: dict) -> tuple | None:
     return None
 
 
-TERMINAL_FORMS = {"ftp": "NonHttpUrlRedirectClientError", "mailto": "NonHttpUrlRedirectClientError", "invalid": "InvalidUrlRedirectClientError",
+TERMINAL_FORMS = {"ftp": "NonHttpUrlRedirectClientError", "mailto": "NonHttpUrlRedirectClientError", "ws": "NonHttpUrlRedirectClientError",
+                  "wss": "NonHttpUrlRedirectClientError", "tcp": "NonHttpUrlRedirectClientError", "unix": "NonHttpUrlRedirectClientError",
+                  "HTTPX": "NonHttpUrlRedirectClientError", "invalid": "InvalidUrlRedirectClientError",
                   "nohost": "InvalidUrlRedirectClientError", "empty": None, "missing": None}
 
 
